@@ -10,6 +10,8 @@
 //	                   -> same fields; result r = <res>|<hex of LOG.join(",")>
 //	V|VF <hex js source>  reviver case: mk() returns [text, reviver]; JSON.parse vs the InternalizeJSONProperty oracle,
 //	                   structural dump of the result (holes, descriptors) + LOG
+//	SR <gap> <mode> D <k>* Z <k>* W <k>* V <tok>*   stringify with the Lean driver's hook catalogue (toJSON on prototypes, replacer function)
+//	RM <hex text> T <k>* X <k>* S <k>? C <hex const> D <k>*   reviver that edits its holder (Lean ReviverMut)
 //	RV <hex text> D <s-key>* Z <s-key>*   pure reviver of the Lean model (undefined for D keys, null for Z keys)
 //	Q <hex>            JSON.stringify(string) -> "ok <hex>"
 //
@@ -161,6 +163,14 @@ func (r *rt) readVal(toks []string) (goja.Value, []string, bool) {
 	}
 	t, rest := toks[0], toks[1:]
 	switch t[0] {
+	case 'u':
+		return goja.Undefined(), rest, true
+	case 'F':
+		fv, err := r.vm.RunString("(function(){})")
+		if err != nil {
+			return nil, nil, false
+		}
+		return fv, rest, true
 	case 'z':
 		return goja.Null(), rest, true
 	case 't':
@@ -614,6 +624,114 @@ func doRV(ws []string) string {
 	return v.String()
 }
 
+// SR <gap> <mode> D <s-key>* Z <s-key>* W <s-key>* V <tok>*: stringify with the hook catalogue of the Lean driver
+// (toJSON on Array.prototype / Object.prototype, replacer function); fresh runtime (prototypes are touched)
+func doSR(ws []string) string {
+	if len(ws) < 3 || ws[2] != "D" {
+		return "bad"
+	}
+	gapTok, mode := ws[0], ws[1]
+	r := newRT()
+	var D, Z, W []interface{}
+	cur := &D
+	i := 3
+	for ; i < len(ws); i++ {
+		t := ws[i]
+		if t == "Z" {
+			cur = &Z
+			continue
+		}
+		if t == "W" {
+			cur = &W
+			continue
+		}
+		if t == "V" {
+			i++
+			break
+		}
+		if len(t) == 0 || t[0] != 's' {
+			return "bad"
+		}
+		u, ok := unhex(t[1:])
+		if !ok {
+			return "bad"
+		}
+		*cur = append(*cur, jsString(r, u))
+	}
+	v, rest, ok := r.readVal(ws[i:])
+	if !ok || len(rest) != 0 {
+		return "bad"
+	}
+	var space goja.Value
+	switch gapTok[0] {
+	case 'n':
+		k, err := strconv.ParseInt(gapTok[1:], 10, 64)
+		if err != nil {
+			return "bad"
+		}
+		space = r.vm.ToValue(k)
+	case 's':
+		u, ok := unhex(gapTok[1:])
+		if !ok {
+			return "bad"
+		}
+		space = jsString(r, u)
+	default:
+		return "bad"
+	}
+	out, err := r.fn("hookCase")(goja.Undefined(), v, r.vm.ToValue(mode), r.vm.NewArray(D...), r.vm.NewArray(Z...), r.vm.NewArray(W...), space)
+	if err != nil {
+		return "reserr:" + common.OneLine(err.Error())
+	}
+	return out.String()
+}
+
+// RM <hex text> T <k>* X <k>* S <k>? C <hex const> D <k>*: reviver that edits its holder (same catalogue as the Lean driver)
+func doRM(ws []string) string {
+	if len(ws) < 2 || ws[1] != "T" {
+		return "bad"
+	}
+	units, ok := unhex(ws[0])
+	if !ok {
+		return "bad"
+	}
+	if parseRT == nil {
+		parseRT = newRT()
+	}
+	r := parseRT
+	lists := map[string]*[]interface{}{"T": {}, "X": {}, "S": {}, "D": {}}
+	var cval goja.Value = goja.Undefined()
+	cur := "T"
+	for _, t := range ws[2:] {
+		if t == "X" || t == "S" || t == "C" || t == "D" {
+			cur = t
+			continue
+		}
+		if cur == "C" {
+			u, ok := unhex(t)
+			if !ok {
+				return "bad"
+			}
+			cval = jsString(r, u)
+			continue
+		}
+		if len(t) == 0 || t[0] != 's' {
+			return "bad"
+		}
+		u, ok := unhex(t[1:])
+		if !ok {
+			return "bad"
+		}
+		*lists[cur] = append(*lists[cur], jsString(r, u))
+	}
+	v, err := r.fn("reviveMutCase")(goja.Undefined(), jsString(r, units), r.vm.NewArray(*lists["T"]...), r.vm.NewArray(*lists["X"]...),
+		r.vm.NewArray(*lists["S"]...), cval, r.vm.NewArray(*lists["D"]...))
+	if err != nil {
+		return "reserr:" + common.OneLine(err.Error())
+	}
+	return v.String()
+}
+
 func doQ(h string) string {
 	units, ok := unhex(h)
 	if !ok {
@@ -652,10 +770,17 @@ func main() {
 			return doParse(ws[1])
 		case "S":
 			return doS(ws[1:], false)
+		case "RM":
+			return doRM(ws[1:])
+		case "SR":
+			return doSR(ws[1:])
 		case "RV":
 			return doRV(ws[1:])
 		case "SL":
 			return doS(ws[1:], true)
+		case "SM":
+			// plain data with undefined / function leaves (tokens u, F): same comparison as S
+			return doS(ws[1:], false)
 		case "J":
 			if len(ws) != 2 {
 				return "bad"
